@@ -108,10 +108,12 @@ EXTRA = {
 }
 for _p, _c in (("C09", "hashtable"), ("C14", "cnt and cache"), ("C15", "setter_history and rcrit"), ("C17", "bounds"), ("C18", "strength")):
     EXTRA[_p] = EXTRA.get(_p, "") + " Thorough tier: the %s clause(s) are additionally driven by atheris/libFuzzer (coverage-guided) through Hypothesis' fuzz_one_input." % _c
-EXTRA["C11"] = "The phase-order clause calibrates its tolerance per case against a run whose alloy content is perturbed by 2 ulp (summation order over phases changes rounding); needle/plate phases may take their aspect ratio from an elastic strain energy."
+EXTRA["C11"] += " Summation order over phases changes rounding, which a run amplifies: steps after the envelope passes 1e-6 are not judged. Needle/plate phases may take their aspect ratio from an elastic strain energy."
 EXTRA["C16"] = "The precipitate's own rotation and the named stiffness setters (setElasticConstants, setModuli and the precipitate versions) are exercised next to the tensor setters."
+_C01 = EXTRA["C01"]
 EXTRA["C01"] = "Scenarios include rarely used model options (setBetaBinary(2), effective diffusion distance off, theta, parent phases) and needle/plate phases whose aspect ratio is computed from an elastic strain energy."
 EXTRA["C03"] = EXTRA["C01"]
+EXTRA["C01"] += " " + _C01
 NOTE_OVERRIDE = {
     "C20": "toy/stub backends (the file format and the surrogate plumbing do not depend on the database); training sets are generated non-degenerate (distinct, non-collinear points)",
 }
